@@ -27,7 +27,7 @@ RULE = (
     "other compiles; non-trivial = pattern with >= 1 field spec; distinct = distinct (pattern text, node fingerprint)"
 )
 ASSUMPTIONS = ["sequence patterns applied to str-valued fields and field names that are properties/methods are not generated (don't-care)"]
-MUST_SEE = ["pattern_after_class_redefinition", "empty_rule_selection", "regex_inner_whitespace", "rules_given_as_iter", "rules_given_as_gen", "regex_on_hash_equal_values", 
+MUST_SEE = ["empty_sequence_spec", "pattern_after_class_redefinition", "empty_rule_selection", "regex_inner_whitespace", "rules_given_as_iter", "rules_given_as_gen", "regex_on_hash_equal_values", 
     "tail_vs_too_short", "capture_on_seq_with_tail", "two_any_captures", "var_node_other_origin", "second_alternative_subclass",
     "matches", "mismatches", "reasked", "multi_questions", "regex_middle_only", "tail_capture", "empty_seq_vs_nonempty", "reasked_after_rejected",
 ]
@@ -324,3 +324,18 @@ def run_shard(ctx):
             if ok_new is not True or ok_old is not False:
                 ctx.violation("verdict", "a pattern compiled after its class was defined again does not denote the class now bearing the name", {"pattern": text, "generation": gen_no, "matches_instance_of_current_class": ok_new, "matches_instance_of_previous_class": ok_old})
         prev = node
+
+    # ---- [] denotes the empty tuple only (not an empty string, not None, not a non-empty tuple) ----
+    Mixc = U.cls[f"{P}Mix"]
+    empties = [(U.cls[f"{P}Leaf"](v=1, s=""), "s", False), (Mixc(ti=()), "ti", True), (Mixc(ti=(1,)), "ti", False), (Mixc(ts=()), "ts", True), (Mixc(os=None), "os", False), (U.cls[f"{P}List"](items=()), "items", True), (U.cls[f"{P}List"](items=(U.cls[f"{P}Leaf"](v=2),)), "items", False), (U.cls[f"{P}Blob"](data=b""), "data", False)]
+    for node, fname, exp in empties:
+        text = f"({type(node).__name__} @{fname}=[])"
+        m, msg = NodeMatcher.from_pattern(text)
+        ctx.evaluations += 1
+        ctx.count("empty_sequence_spec")
+        if m is None:
+            ctx.violation("well-formed-rejected", f"pattern rejected: {msg[:200]}", {"pattern": text})
+            continue
+        got = m.match(node)[0]
+        if got != exp:
+            ctx.violation("verdict", f"match verdict {got} for '[]' against {getattr(node, fname)!r}; [] matches the empty tuple only", {"pattern": text, "value": repr(getattr(node, fname))})
